@@ -169,12 +169,19 @@ Proof.
   now rewrite (normalize_hostname_case idna_o hn hn' Ha Ha' Hl).
 Qed.
 
-Lemma parse_host_case hn hn' pp :
-  name_text hn -> name_text hn' -> lower_ascii hn = lower_ascii hn' -> port_text pp ->
+(* a host text: no colon, no brackets, not empty *)
+Definition plain_host_text (hn : str) : Prop := memb 58 hn = false /\ memb 91 hn = false /\ memb 93 hn = false /\ hn <> [].
+
+Lemma name_plain_host_text hn : name_text hn -> plain_host_text hn.
+Proof. intros [_ [A [B [C D]]]]. repeat split; assumption. Qed.
+
+(* two host texts the host-name parser treats alike, followed by the same port text *)
+Lemma parse_host_equiv hn hn' pp :
+  plain_host_text hn -> plain_host_text hn' -> port_text pp ->
+  parse_hostname idna_o ipv6_o int_o hn = parse_hostname idna_o ipv6_o int_o hn' ->
   parse_host idna_o ipv6_o int_o (hn ++ pp) = parse_host idna_o ipv6_o int_o (hn' ++ pp).
 Proof.
-  intros N1 N2 Hl Hp. pose proof (parse_hostname_case hn hn' N1 N2 Hl) as Hh.
-  destruct N1 as [_ [H58 [_ [H93 Hne]]]]. destruct N2 as [_ [H58' [_ [H93' Hne']]]].
+  intros [H58 [_ [H93 Hne]]] [H58' [_ [H93' Hne']]] Hp Hh.
   unfold parse_host. destruct Hp as [-> | [port [-> [Hdig Hpne]]]].
   - rewrite !app_nil_r. rewrite (last_is_no 93 hn H93), (last_is_no 93 hn' H93').
     rewrite (rpartition_none 58 hn H58), (rpartition_none 58 hn' H58'). now rewrite Hh.
@@ -187,12 +194,19 @@ Proof.
     destruct ((z <? 0)%Z || (65535 <? z)%Z); [reflexivity|]. now rewrite Hh.
 Qed.
 
-(* "scheme://U hn pp R" and "scheme://U hn' pp R": U empty or "userinfo@", hn / hn' host names that differ only in ASCII
-   letter case, pp the port text, R the rest *)
-Theorem parse_network_host_case url url' scheme dport (u : option str) hn hn' pp R :
+Lemma parse_host_case hn hn' pp :
+  name_text hn -> name_text hn' -> lower_ascii hn = lower_ascii hn' -> port_text pp ->
+  parse_host idna_o ipv6_o int_o (hn ++ pp) = parse_host idna_o ipv6_o int_o (hn' ++ pp).
+Proof.
+  intros N1 N2 Hl Hp. apply parse_host_equiv; auto using name_plain_host_text. now apply parse_hostname_case.
+Qed.
+
+(* "scheme://U hn pp R" and "scheme://U hn' pp R": U empty or "userinfo@", hn / hn' host texts that the host-name parser
+   treats alike, pp the port text, R the rest *)
+Theorem parse_network_host_equiv url url' scheme dport (u : option str) hn hn' pp R :
   default_port scheme = Some dport ->
   (forall x, u = Some x -> memb 64 x = false /\ memb 47 x = false /\ memb 63 x = false /\ memb 35 x = false) ->
-  name_text hn -> name_text hn' -> lower_ascii hn = lower_ascii hn' -> port_text pp ->
+  plain_host_text hn -> plain_host_text hn' -> parse_hostname idna_o ipv6_o int_o hn = parse_hostname idna_o ipv6_o int_o hn' -> port_text pp ->
   memb 47 hn = false -> memb 63 hn = false -> memb 35 hn = false -> memb 64 hn = false ->
   memb 47 hn' = false -> memb 63 hn' = false -> memb 35 hn' = false -> memb 64 hn' = false ->
   rest_ok R ->
@@ -229,7 +243,7 @@ Proof.
   rewrite (split_remaining_shift _ R a47 a63 a35 HR), (split_remaining_shift _ R a47' a63' a35' HR).
   destruct (split_remaining R) as [[[[a0 resource] path] query] fragment].
   rewrite (PA hn h64), (PA hn' h64').
-  rewrite (parse_host_case hn hn' pp N1 N2 Hl Hp).
+  rewrite (parse_host_equiv hn hn' pp N1 N2 Hp Hl).
   destruct (parse_host idna_o ipv6_o int_o (hn' ++ pp)) as [[h port]|k]; cbn [bind]; [|reflexivity].
   destruct (parse_userinfo _) as [username password].
   destruct (is_nil h); [reflexivity|].
@@ -240,9 +254,68 @@ Proof.
   destruct (normalize_userpart enc password_encode_set _); cbn [bind]; [|reflexivity].
   split; [|repeat split; reflexivity].
   unfold url_of, is_ipv6. cbn [u_scheme u_username u_password u_host u_hostname u_port u_path u_query]. rewrite Hd.
-  destruct N1 as [_ [_ [H91 [_ Hne]]]]. destruct N2 as [_ [_ [H91' [_ Hne']]]].
+  destruct N1 as [_ [H91 [_ Hne]]]. destruct N2 as [_ [H91' [_ Hne']]].
   rewrite (startswith_app_ne2 hn pp 91 Hne), (startswith_app_ne2 hn' pp 91 Hne').
   now rewrite (startswith_no 91 hn H91), (startswith_no 91 hn' H91').
+Qed.
+
+(* host names that differ only in ASCII letter case *)
+Theorem parse_network_host_case url url' scheme dport (u : option str) hn hn' pp R :
+  default_port scheme = Some dport ->
+  (forall x, u = Some x -> memb 64 x = false /\ memb 47 x = false /\ memb 63 x = false /\ memb 35 x = false) ->
+  name_text hn -> name_text hn' -> lower_ascii hn = lower_ascii hn' -> port_text pp ->
+  memb 47 hn = false -> memb 63 hn = false -> memb 35 hn = false -> memb 64 hn = false ->
+  memb 47 hn' = false -> memb 63 hn' = false -> memb 35 hn' = false -> memb 64 hn' = false ->
+  rest_ok R ->
+  let U := match u with Some x => x ++ [64] | None => [] end in
+  match parse_network enc idna_o ipv6_o int_o unq_o url scheme dport ([47; 47] ++ (U ++ hn ++ pp) ++ R),
+        parse_network enc idna_o ipv6_o int_o unq_o url' scheme dport ([47; 47] ++ (U ++ hn' ++ pp) ++ R) with
+  | Ok i, Ok i' => url_of enc i = url_of enc i' /\ u_scheme i = u_scheme i' /\ u_hostname i = u_hostname i' /\
+                   u_port i = u_port i' /\ u_path i = u_path i' /\ u_query i = u_query i' /\ u_fragment i = u_fragment i' /\
+                   u_username i = u_username i' /\ u_password i = u_password i'
+  | Err k, Err k' => k = k'
+  | _, _ => False
+  end.
+Proof.
+  intros Hd Hu N1 N2 Hl Hp. apply parse_network_host_equiv; auto using name_plain_host_text. now apply parse_hostname_case.
+Qed.
+
+(* IPv4 notations of the same address (one integer or four, decimal / 0-octal / 0x-hex): the host-name parser gives the same
+   dotted-decimal host for both.  The spellings are ASCII texts that pass the IDNA label check (as every spelling made of
+   digits, hex letters, "x" and dots with non-empty labels does); the value is that of the lower-cased text *)
+Definition ipv4_text (a : str) (v : Z) : Prop :=
+  all_ascii a = true /\ is_nil a = false /\ idna_labels_ok (split_on 46 a) = true /\ memb 91 a = false /\
+  ipv4_value int_o (lower_ascii a) = Some v.
+
+Lemma parse_hostname_ipv4 a a' v :
+  ipv4_text a v -> ipv4_text a' v -> (exists d, ipv4_compressed v = Some d) ->
+  parse_hostname idna_o ipv6_o int_o a = parse_hostname idna_o ipv6_o int_o a'.
+Proof.
+  intros [Ha [Hn [Hl [H91 Hv]]]] [Ha' [Hn' [Hl' [H91' Hv']]]] Hr. unfold parse_hostname.
+  rewrite (startswith_no 91 a H91), (startswith_no 91 a' H91').
+  rewrite (normalize_hostname_ascii idna_o a Ha), (normalize_hostname_ascii idna_o a' Ha'), Hn, Hn', Hl, Hl'. cbn [orb bind].
+  rewrite (normalize_ipv4_by_value int_o (lower_ascii a)), (normalize_ipv4_by_value int_o (lower_ascii a')), Hv, Hv'.
+  destruct Hr as [d ->]. reflexivity.
+Qed.
+
+Theorem parse_network_ipv4 url url' scheme dport (u : option str) a a' v pp R :
+  default_port scheme = Some dport ->
+  (forall x, u = Some x -> memb 64 x = false /\ memb 47 x = false /\ memb 63 x = false /\ memb 35 x = false) ->
+  ipv4_text a v -> ipv4_text a' v -> (exists d, ipv4_compressed v = Some d) -> plain_host_text a -> plain_host_text a' -> port_text pp ->
+  memb 47 a = false -> memb 63 a = false -> memb 35 a = false -> memb 64 a = false ->
+  memb 47 a' = false -> memb 63 a' = false -> memb 35 a' = false -> memb 64 a' = false ->
+  rest_ok R ->
+  let U := match u with Some x => x ++ [64] | None => [] end in
+  match parse_network enc idna_o ipv6_o int_o unq_o url scheme dport ([47; 47] ++ (U ++ a ++ pp) ++ R),
+        parse_network enc idna_o ipv6_o int_o unq_o url' scheme dport ([47; 47] ++ (U ++ a' ++ pp) ++ R) with
+  | Ok i, Ok i' => url_of enc i = url_of enc i' /\ u_scheme i = u_scheme i' /\ u_hostname i = u_hostname i' /\
+                   u_port i = u_port i' /\ u_path i = u_path i' /\ u_query i = u_query i' /\ u_fragment i = u_fragment i' /\
+                   u_username i = u_username i' /\ u_password i = u_password i'
+  | Err k, Err k' => k = k'
+  | _, _ => False
+  end.
+Proof.
+  intros Hd Hu I1 I2 Hr T1 T2 Hp. apply parse_network_host_equiv; auto. now apply (parse_hostname_ipv4 a a' v).
 Qed.
 End HostCaseUrl.
 
@@ -382,5 +455,25 @@ Proof.
                                  end) sch sc dport (P ++ 35 :: f) P Hs P1 P2).
   intros url url'. destruct Hs as [_ [_ [_ [_ [_ Hd]]]]].
   exact (parse_network_fragment enc idna_o ipv6_o int_o unq_o url url' sc dport P f nf Hd P35 He Hf).
+Qed.
+(* "sch://U a pp R" and "sch://U a' pp R" with a, a' IPv4 notations of the same address *)
+Theorem parse_url_ipv4 sch sc dport (u : option str) a a' v pp R :
+  scheme_text sch sc dport ->
+  (forall x, u = Some x -> memb 64 x = false /\ memb 47 x = false /\ memb 63 x = false /\ memb 35 x = false) ->
+  ipv4_text int_o a v -> ipv4_text int_o a' v -> (exists d, ipv4_compressed v = Some d) -> plain_host_text a -> plain_host_text a' -> port_text pp ->
+  memb 47 a = false -> memb 63 a = false -> memb 35 a = false -> memb 64 a = false ->
+  memb 47 a' = false -> memb 63 a' = false -> memb 35 a' = false -> memb 64 a' = false ->
+  rest_ok R ->
+  let U := match u with Some x => x ++ [64] | None => [] end in
+  let rem := [47; 47] ++ (U ++ a ++ pp) ++ R in
+  let rem' := [47; 47] ++ (U ++ a' ++ pp) ++ R in
+  plain_text (sch ++ 58 :: rem) -> plain_text (sch ++ 58 :: rem') ->
+  same_url (parse (sch ++ 58 :: rem)) (parse (sch ++ 58 :: rem')).
+Proof.
+  intros Hs Hu I1 I2 Hr T1 T2 Hp a47 a63 a35 a64 a47' a63' a35' a64' HR U rem rem' P1 P2.
+  apply (parse_lift same_url sch sc dport rem rem' Hs P1 P2). intros url url'.
+  destruct Hs as [_ [_ [_ [_ [_ Hd]]]]].
+  exact (parse_network_ipv4 enc idna_o ipv6_o int_o unq_o url url' sc dport u a a' v pp R
+           Hd Hu I1 I2 Hr T1 T2 Hp a47 a63 a35 a64 a47' a63' a35' a64' HR).
 Qed.
 End WholeUrl.
